@@ -231,10 +231,34 @@ func worker(t *testing.T, wid, workers int) {
 		}
 		dir := []string{"egress", "ingress"}[rng.IntN(2)]
 		subIP := net.IPv4(byte(1+rng.IntN(222)), byte(rng.IntN(256)), byte(rng.IntN(256)), byte(1+rng.IntN(254))).To4()
-		q := &qos.SubscriberQoS{IP: subIP, DownloadBPS: rate, UploadBPS: rate, BurstBytes: burst, Priority: uint8(rng.IntN(8)), PolicyName: "p"}
+		// the other direction of the same policy: equal, different, or unlimited (asymmetric policies are common)
+		other := rate
+		switch rng.IntN(4) {
+		case 0:
+			other = 0
+		case 1:
+			other = rates[rng.IntN(len(rates))]
+		case 2:
+			other = 8000 * uint64(1+rng.IntN(100000))
+		}
+		dnBPS, upBPS := rate, other
+		if dir == "ingress" {
+			dnBPS, upBPS = other, rate
+		}
+		switch {
+		case other == rate:
+			run.Count("policies_symmetric", 1)
+		case other == 0:
+			run.Count("policies_other_direction_unlimited", 1)
+		case rate == 0:
+			run.Count("policies_judged_direction_unlimited_other_limited", 1)
+		default:
+			run.Count("policies_asymmetric", 1)
+		}
+		q := &qos.SubscriberQoS{IP: subIP, DownloadBPS: dnBPS, UploadBPS: upBPS, BurstBytes: burst, Priority: uint8(rng.IntN(8)), PolicyName: "p"}
 		var pol *radius.QoSPolicy
 		if rng.IntN(3) == 0 {
-			pol = &radius.QoSPolicy{Name: "p", DownloadBPS: rate, UploadBPS: rate, BurstSize: burst, Priority: q.Priority}
+			pol = &radius.QoSPolicy{Name: "p", DownloadBPS: dnBPS, UploadBPS: upBPS, BurstSize: burst, Priority: q.Priority}
 		}
 		var prev []*qos.SubscriberQoS
 		if rng.IntN(3) == 0 {
